@@ -373,8 +373,10 @@ class MapDecoder:
                     work.append(s)
         self.classes = state
         self.table = {}
+        self.outside_effects = []     # writes to the result that are not part of the per-entry dispatch
         for f, e in self.field_effects():
             if e["bb"] not in body:
+                self.outside_effects.append((f, e))
                 continue
             cls = frozenset(state.get(e["bb"], set()))
             self.table.setdefault(cls, []).append((f, e))
@@ -415,8 +417,8 @@ class MapDecoder:
 def const_label_int(prog, t):
     """integer a constant label term denotes: Label::Int(k) / Assigned(Enum::V) / constdef of those"""
     t = resolve_consts(prog, t)
-    while t[0] in ("ref", "deref"):
-        t = t[1]
+    while t[0] in ("ref", "deref") or (is_call(t) and t[1].endswith("::clone") and len(t[2]) == 1):
+        t = t[1] if t[0] != "call" else resolve_consts(prog, t[2][0])
     if t[0] == "aggr":
         if t[2] == "Int" and t[3] and t[3][0][1][0] == "const":
             return t[3][0][1][1]
